@@ -94,13 +94,15 @@ def gen_clutter(rng, worlds, shadow_bias=0.6):
         if rng.random() < shadow_bias:
             system = w["static"]["system"]
             cwd = w["cwd"]
-            choice = rng.choice(["sysdir", "sysfile_garbage", "sysfile_valid", "constraints", "othersys", "default", "schema", "output", "inputs", "sysdir"])
+            choice = rng.choice(["sysdir", "sysfile_garbage", "sysfile_valid", "sysfile_empty", "constraints", "othersys", "default", "schema", "output", "inputs", "sysdir"])
             if choice == "sysdir":
                 out.append({"dir": cwd, "name": system, "kind": "dir", "children": [{"name": "POSCAR", "text": "x\n"}]})
             elif choice == "sysfile_garbage":
                 out.append({"dir": cwd, "name": system, "kind": "file", "text": "this is not = a relation file ((\n"})
             elif choice == "sysfile_valid":
                 out.append({"dir": cwd, "name": system, "kind": "file", "text": VALID_OTHER_RELATIONS})
+            elif choice == "sysfile_empty":
+                out.append({"dir": cwd, "name": system, "kind": "file", "text": ""})      # as a relations file it would impose nothing at all
             elif choice == "constraints":
                 out.append({"dir": cwd, "name": "constraints", "kind": "dir", "children": [{"name": system, "text": VALID_OTHER_RELATIONS}]})
             elif choice == "othersys":
@@ -434,10 +436,10 @@ def gen_program_c09(rng, name, world, tier):
             pres["int"] = True
             prog.append({"op": "fill.call", "target": system, "present": pres, "flags": flags, "ref": ref, "ref_what": "integer-typed columns", "expect_ok": True})
         elif v in ("path", "abspath") and system != "triclinic":
-            prog.append({"op": "fill.call", "target": {"relpath": f"{world['cwd']}/{rng.choice(['relations.txt', 'my_relations.txt'])}", "abs": v == "abspath"},
+            prog.append({"op": "fill.call", "target": {"relpath": f"{world['cwd']}/{rng.choice(['relations', 'my_relations'])}_{name.lower()}.txt", "abs": v == "abspath"},
                          "present": pres, "flags": flags, "ref": ref, "ref_what": "user-written relations file equivalent to the packaged ones", "expect_ok": True})
         elif v == "nopath":
-            prog.append({"op": "fill.call", "target": {"relpath": f"{world['cwd']}/no_such_relations.txt", "abs": rng.random() < 0.5},
+            prog.append({"op": "fill.call", "target": {"relpath": f"{world['cwd']}/no_such_rel_{name.lower()}.txt", "abs": rng.random() < 0.5},
                          "present": pres, "flags": flags, "expect_fail": True})
         elif v == "cli":
             prog.append({"op": "cli.fill", "system": system, "store": "f%d" % len(prog), "flags": [], "abs": rng.random() < 0.5, "expect_ok": True})
@@ -729,8 +731,8 @@ def derive_world(rng, tier, base, name, methods):
     return w
 
 
-SEG_ANY = {"calc.new", "calc.read", "calc.write", "cli.run", "cli.fill", "env.mutate_config"}
-SEG_RO = {"calc.new", "calc.read", "cli.fill"}
+SEG_ANY = {"calc.new", "calc.read", "calc.write", "cli.run", "cli.fill", "fill.call", "env.mutate_config"}
+SEG_RO = {"calc.new", "calc.read", "cli.fill", "fill.call"}
 SEG_EXTRACT = {"cli.extract", "cli.geotherm"}
 
 
@@ -821,7 +823,7 @@ def gen_scenario(prop, seed, tier, faults_enabled=None, nclients=None, segments_
         if prop == "C19":
             w["stubs"] = gen_stub_tables(rng, n, w, rng.randint(0, 2))
         worlds[n] = w
-    segments = prop in ("C14", "C12", "C15", "C19") and nclients > 1 and rng.random() < ((0.45 if prop in ("C14", "C12") else 0.3) if segments_p is None else segments_p)
+    segments = prop in ("C14", "C12", "C15", "C19", "C09") and nclients > 1 and rng.random() < ((0.45 if prop in ("C14", "C12") else 0.3) if segments_p is None else segments_p)
     if segments or (prop in ("C15", "C19", "C17") and nclients > 1 and rng.random() < 0.6):
         for n in names:           # clients share one working directory: last writer wins
             if worlds[n]["datadir"] == worlds[n]["cwd"]:
@@ -860,7 +862,7 @@ def gen_scenario(prop, seed, tier, faults_enabled=None, nclients=None, segments_
             if op["op"] == "cli.geotherm":
                 text = "  ".join(op["columns"]) + "\n" + "\n".join("  ".join(repr(float(x)) for x in row) for row in op["points"]) + "\n"
                 extra.append({"client": n, "path": f"{w['cwd']}/{op['geotherm']}", "text": text})
-            if op["op"] == "fill.call" and isinstance(op["target"], dict) and "relations.txt" in op["target"]["relpath"] and "no_such" not in op["target"]["relpath"]:
+            if op["op"] == "fill.call" and isinstance(op["target"], dict) and "relations_" in op["target"]["relpath"] and "no_such" not in op["target"]["relpath"]:
                 if not any(e["path"] == op["target"]["relpath"] for e in extra):
                     extra.append({"client": n, "path": op["target"]["relpath"], "text": W.relations_text(w["static"]["system"], rng)})
     schedule = [n for n in names for _ in programs[n]]
